@@ -409,6 +409,8 @@ def run(ctx: Ctx):
         if job[0] == "mat":
             nrep += len(job[2])
     ctx.cov["traces_validated_against_impl"] += nrep
+    if ctx.tier == "thorough":      # A adj(A) = det(A) I: for all integer 3 x 3 matrices
+        ctx.lift_lemmas([("L_Adjugate", "AdjugateLaw", True), ("L_Adjugate", "Falsified", False)])
     ctx.sample({k: v for k, v in recs["mat"][0].items()})
     ctx.sample(recs["roots"][0])
     ctx.sample(recs["ismul"][0])
